@@ -209,7 +209,12 @@ def v_oref(x):
 
 
 def v_ostrs(x):
-    return None if x is None else Some(list(x))
+    """expand_all / expand_pair_all: canonical URI first; the order among the synonym expansions is not specified by any property
+    and is normalised (model/Answer.v norm_all does the same)."""
+    if x is None:
+        return None
+    x = list(x)
+    return Some(x[:1] + sorted(x[1:]))
 
 
 def v_record(r):
